@@ -12,7 +12,7 @@ from .c04 import first_before
 
 def two_run(tier, cont):
     smt.STATS.__init__()
-    n, k, L_ = (2, 3, 3) if tier == 'quick' else (3, 4, 4)
+    n, k, L_ = (3, 3, 3) if tier == 'quick' else (3, 4, 4)
     c = build({'seq': '', 'pre': {'N': n, 'K': k}, 'qty_mode': 'full', 'price': 1, 'default_unwind': n + 4, 'vec_cap': n + 3,
                'match_unwind': L_, 'pop_unwind': k + L_ + 2, 'iter_symbolic': True, 'order_price_offsets': [1]})
     h, ex, L, inp = c.h, c.ex, c.L, c.inp
@@ -125,7 +125,7 @@ def run(tier, seed):
     known, fixed = load_known('C11')
     known_keys = [f['key'] for f in known]
     conts = ['match'] if tier == 'quick' else ['match', 'cancel+match']
-    run.bounds = {'original_level': 'ARBITRARY state with <= %d resting orders, <= %d tickets (ties and non-monotone timestamps, duplicate and stale tickets included)' % ((2, 3) if tier == 'quick' else (3, 4)),
+    run.bounds = {'original_level': 'ARBITRARY state with <= %d resting orders, <= %d tickets (ties and non-monotone timestamps, duplicate and stale tickets included)' % ((3, 3) if tier == 'quick' else (3, 4)),
                   'restore_path': 'from_snapshot(snapshot())', 'continuations': conts, 'match_loop_unwind': 3 if tier == 'quick' else 4,
                   'map_iteration_order': 'arbitrary (symbolic permutation) when the snapshot is taken'}
     run.assumptions = ['order prices range over {level price, level price + 1} (the level does not validate order prices)', 'both runs use generators with the same namespace', 'continuation bounded to the listed operations; match loop unrolled to the stated bound',
